@@ -8,6 +8,7 @@ import (
 	"strings"
 	"unicode/utf8"
 
+	"sigs.k8s.io/yaml"
 	"tags.cncf.io/container-device-interface/pkg/cdi"
 	specs "tags.cncf.io/container-device-interface/specs-go"
 	"verif/harness/hx"
@@ -234,6 +235,103 @@ func addSpec09(s *hx.Suite, scratch string, idx *int, class string, sp *specs.Sp
 	}
 }
 
+// ---- one string through the JSON text layer alone (no files): json.Marshal writes the literal, the reader of every Spec file
+// (sigs.k8s.io/yaml, strict, as cdi.ParseSpec calls it) reads it back as a member value of a one-line JSON object ----
+
+func strClass09(str string) int {
+	if hasC1(str) {
+		return 1
+	}
+	if hasNEL(str) {
+		return 2
+	}
+	return 0
+}
+
+func addStr09(s *hx.Suite, class string, str string) {
+	lit, err := json.Marshal(str)
+	if err != nil || len(lit) < 2 {
+		return
+	}
+	escaped := string(lit[1 : len(lit)-1])
+	var back struct {
+		S *string `json:"s"`
+	}
+	var uerr error
+	p, msg := hx.Guard(func() { uerr = yaml.UnmarshalStrict([]byte(`{"s":`+string(lit)+`}`), &back) })
+	ok := !p && uerr == nil && back.S != nil
+	scanned := hx.None
+	desc := map[string]interface{}{"string": hx.JS(str), "json_literal_inside": hx.JS(escaped), "read_back_ok": ok}
+	if ok {
+		scanned = hx.Some(hx.S(*back.S))
+		desc["read_back"] = hx.JS(*back.S)
+	} else if p {
+		desc["problem"] = "panic: " + msg
+	}
+	k := strClass09(str)
+	valid := utf8.ValidString(str)
+	known := knownIDs09[k]
+	if !valid {
+		known = ""
+	}
+	// coqc spends its time elaborating string literals: write each distinct string once
+	term := ""
+	if escaped == str {
+		sc := scanned
+		if ok && *back.S == str {
+			sc = hx.Some("x")
+		}
+		term = "(let x := " + hx.S(str) + " in " + hx.C("CaseStr", "x", hx.B(valid), "x", sc, hx.Nat(k)) + ")"
+	} else if ok && *back.S == str {
+		term = "(let x := " + hx.S(str) + " in " + hx.C("CaseStr", "x", hx.B(valid), hx.S(escaped), hx.Some("x"), hx.Nat(k)) + ")"
+	} else {
+		term = hx.C("CaseStr", hx.S(str), hx.B(valid), hx.S(escaped), scanned, hx.Nat(k))
+	}
+	s.Add(hx.Case{
+		Term:       chunkLiterals(term),
+		Desc:       desc,
+		Class:      class,
+		Known:      known,
+		Nontrivial: true,
+		Key:        "str|" + str,
+		Cost:       strCost09,
+	})
+}
+
+// addLit09 writes the string Spec of str through Cache.WriteSpec under a .json name and hands the file's bytes to the judge: the
+// member "example.com/note":"<literal>" must carry the literal json_escape predicts (the library writes .json files with
+// encoding/json, HTML escaping on — the writer the theorem json_string_layer is about).
+func addLit09(s *hx.Suite, scratch string, idx *int, str string) {
+	*idx++
+	dir := filepath.Join(scratch, "lit")
+	_ = os.RemoveAll(dir)
+	_ = os.MkdirAll(dir, 0o755)
+	cache, _ := cdi.NewCache(cdi.WithSpecDirs(dir), cdi.WithAutoRefresh(false))
+	name := fmt.Sprintf("l%d.json", *idx)
+	var werr error
+	p, msg := hx.Guard(func() { werr = cache.WriteSpec(stringSpec09(str), name) })
+	data, rerr := os.ReadFile(filepath.Join(dir, name))
+	desc := map[string]interface{}{"string": hx.JS(str), "file": hx.JS(string(data))}
+	if p {
+		desc["problem"] = "panic: " + msg
+	} else if werr != nil {
+		desc["problem"] = "WriteSpec refused: " + werr.Error()
+	} else if rerr != nil {
+		desc["problem"] = "file not readable: " + rerr.Error()
+	}
+	s.Add(hx.Case{
+		Term:       chunkLiterals(hx.C("CaseLit", hx.S(str), hx.S(string(data)))),
+		Desc:       desc,
+		Class:      "json-literal-in-file",
+		Nontrivial: true,
+		Key:        "lit|" + str,
+		Cost:       0.5,
+	})
+}
+
+// a string case costs coqc about 1/40 of a Spec case
+const strCost09 = 0.025
+
 // a minimal valid Spec carrying str in every kind of string position where any string is valid
 func stringSpec09(str string) *specs.Spec {
 	s := &specs.Spec{Version: "0.6.0", Kind: "vendor.com/class", Annotations: map[string]string{"example.com/note": str}}
@@ -257,11 +355,15 @@ func stringSpec09(str string) *specs.Spec {
 var yamlDict09 = []string{"yes", "no", "on", "off", "y", "n", "true", "True", "NULL", "null", "~", "", " ", "0123", "0x1F", "0o17", "1_000", "1e3", ".5", "-.inf", ".NaN",
 	"2001-12-14", "2001-12-14t21:59:43.10-05:00", "<<", "=", "!!str x", "&a", "*a", "- x", "? x", ": x", "x: y", "x :y", "a #b", "#c", "'", "\"", "''", "\"\"", "'x'", "\"x\"", "\\",
 	"\\n", "\\u0041", " x", "x ", "  x  ", "\tx", "x\t", "\n", "\nx", "x\n", "x\n\ny", "x\ny\n", "\r", "x\ry", "\r\n", "x\r\ny", "---", "...", "--- x", "%TAG", "@x", "`x", "|", ">", "|-", ">+",
-	"{", "}", "[", "]", "{a: b}", "[a, b]", ",", "a,b", "\u0085", "\u2028", "\u2029", "\ufeff", "\ufeffx", "é", "日本語", "😀", "\U0001F600x", "a\u0000b", "\u0001", "\u001b[0m", "~"}
+	"{", "}", "[", "]", "{a: b}", "[a, b]", ",", "a,b", "\u0085", "\u2028", "\u2029", "\ufeff", "\ufeffx", "é", "日本語", "😀", "\U0001F600x", "a\u0000b", "\u0001", "\u001b[0m", "~",
+	// a backslash followed by what looks like one of encoding/json's own escapes: survives only if nothing rewrites the written bytes
+	"\\u003c", "a\\u0026b", "\\\\u003e", "\\u2028", "<\\u003c>&"}
 
 func genC09(r *hx.R, tier, scratch string) (*hx.Suite, error) {
-	s := &hx.Suite{Property: "C09", Imports: []string{"Base", "SpecModel", "Doc", "Decode", "Codec", "Judge09"}, CaseType: "case09", Judge: "judge09", Shard: 60,
-		Rule: "every Spec is written through Cache.WriteSpec under a .json name, a .yaml name and an extension-less name, read back with cdi.ReadSpec and loaded through the cache; structure stream: valid Specs over pairwise combinations of the 32 optional fields with 1-3 devices and list elements, and numeric extremes of every integer field; scalar stream: strings (code points U+0000..U+3000 sampled in quick / all in thorough, alone and embedded, U+FFFE/U+FFFF, non-BMP, a YAML-sensitive dictionary, newlines and blanks in every position) placed in every kind of string position (scalar member, list element, map value, env value); non-trivial: all cases (each is a distinct Spec x encoding)"}
+	s := &hx.Suite{Property: "C09", Imports: []string{"Base", "SpecModel", "Doc", "Decode", "Codec", "JsonString", "Judge09"}, CaseType: "case09", Judge: "judge09", Shard: 60,
+		Preamble: "Definition rep_s (c : string) (n : N) : string := N.iter n (String.append c) \"\".", // chunkLiterals writes long runs of one byte with it
+		
+		Rule: "every Spec is written through Cache.WriteSpec under a .json name, a .yaml name and an extension-less name, read back with cdi.ReadSpec and loaded through the cache; structure stream: valid Specs over pairwise combinations of the 32 optional fields with 1-3 devices and list elements, and numeric extremes of every integer field; scalar stream: strings (code points U+0000..U+3000 sampled in quick / all in thorough, alone and embedded, U+FFFE/U+FFFF, non-BMP, a YAML-sensitive dictionary, newlines and blanks in every position) placed in every kind of string position (scalar member, list element, map value, env value); string stream (no files: json.Marshal of the string, then sigs.k8s.io/yaml UnmarshalStrict of the literal as a member value): every code point U+0000..U+FFFF (quick: in runs of 16 consecutive code points, alone where anything is treated specially and for a random 1/32; thorough: each alone as well), code points embedded in seven contexts, a sample beyond the BMP, random strings over an alphabet of every specially treated character, long strings, U+0085 followed by document indicators, and byte strings that are not valid UTF-8; non-trivial: all cases (each is a distinct Spec x encoding or a distinct string)"}
 	idx := 0
 	// --- structure: pairwise option vectors
 	vectors := pairwise05(r)
@@ -335,5 +437,141 @@ func genC09(r *hx.R, tier, scratch string) (*hx.Suite, error) {
 		seen[str] = true
 		addSpec09(s, scratch, &idx, "scalar", stringSpec09(str), map[string]interface{}{"string": hx.JS(str)})
 	}
+	// the literals in the files the library writes
+	nLit := 0
+	seenLit := map[string]bool{}
+	for _, str := range strs {
+		if !utf8.ValidString(str) || seenLit[str] {
+			continue
+		}
+		seenLit[str] = true
+		if (nLit >= 120 && tier != "thorough" || nLit >= 600) && r.Intn(8) != 0 {
+			continue
+		}
+		nLit++
+		addLit09(s, scratch, &idx, str)
+	}
+	genStrings09(r, tier, s, strs)
 	return s, nil
+}
+
+// the alphabet of the random strings of the string stream: every kind of character the escaping or the scanner treats specially
+var strAlpha09 = []string{"a", "b", "z", "0", "9", "A", "F", "f", "u", "n", "x", "U", "N", "L", "P", "_", "e", "/", " ", " ", "  ", "\t", "\n", "\r", "\r\n", "\b", "\f", "\v",
+	"\x00", "\x01", "\x1b", "\x1f", "\"", "'", "\\", "\\\\", "\\n", "\\u0041", "\\\"", "<", ">", "&", "-", "---", "...", "--- ", "... ", ".", ":", "#", ",", "{", "}", "[", "]",
+	"\x7e", "\x7f", "\u0080", "\u0084", "\u0085", "\u0086", "\u009f", "\u00a0", "\u00e9", "\u07ff", "\u0800", "\u2027", "\u2028", "\u2029", "\u202a", "\ud7ff", "\ue000",
+	"\ufeff", "\ufffd", "\ufffe", "\uffff", "\U00010000", "\U0001F600", "\U0010FFFF", "\u65e5\u672c"}
+
+// genStrings09 adds the string-level cases: every code point of the BMP (see below), code points embedded between
+// other characters, a sample beyond the BMP, random strings over strAlpha09, everything the scalar stream used, and a few byte
+// strings that are not valid UTF-8 (the property does not speak of them; they tie valid_utf8 to utf8.ValidString and the
+// U+FFFD replacement of the model to encoding/json).
+func genStrings09(r *hx.R, tier string, s *hx.Suite, scalarStrs []string) {
+	seen := map[string]bool{}
+	add := func(class, str string) {
+		if seen[str] {
+			return
+		}
+		seen[str] = true
+		addStr09(s, class, str)
+	}
+	for _, str := range scalarStrs {
+		add("string-dictionary", str)
+	}
+	// every code point of the BMP.  thorough: each alone.  quick: each alone where anything is treated specially (below U+0300,
+	// U+2000..U+206F, the edges of the surrogate gap, U+FE00..U+FFFF) plus a random sample, and ALL of them in runs of 16
+	// consecutive code points (the members of the two known classes are left out of the runs: they are covered alone)
+	special := func(cp int) bool {
+		return cp < 0x300 || (cp >= 0x2000 && cp < 0x2070) || (cp >= 0xd7f0 && cp < 0xe010) || cp >= 0xfe00
+	}
+	for cp := 0; cp <= 0xffff; cp++ {
+		if cp >= 0xd800 && cp <= 0xdfff {
+			continue
+		}
+		if tier == "thorough" || special(cp) || r.Intn(32) == 0 {
+			add("string-codepoint", string(rune(cp)))
+		}
+	}
+	for lo := 0; lo <= 0xffff; lo += 16 {
+		var b strings.Builder
+		for cp := lo; cp < lo+16; cp++ {
+			if (cp >= 0xd800 && cp <= 0xdfff) || hasC1(string(rune(cp))) || cp == 0x85 {
+				continue
+			}
+			b.WriteRune(rune(cp))
+		}
+		if b.Len() > 0 {
+			add("string-codepoint-run", b.String())
+		}
+	}
+	// embedded: between blanks, after a backslash, before a quote, at a line start made by U+0085 ...
+	ctx := [][2]string{{"a", "b"}, {" ", " "}, {"\\", "\""}, {"x ", " y"}, {"\n", "\t"}, {"\u00e9", "\U0001F600"}, {"-", "-"}}
+	nEmb, nBeyond, nRand := 3000, 600, 3000
+	if tier == "thorough" {
+		nEmb, nBeyond, nRand = 40000, 8000, 40000
+	}
+	for i := 0; i < nEmb; i++ {
+		cp := r.Intn(0x10000)
+		if i < 0x300 {
+			cp = i // every code point below U+0300 at least once
+		}
+		if cp >= 0xd800 && cp <= 0xdfff {
+			continue
+		}
+		c := hx.Pick(r, ctx)
+		add("string-embedded", c[0]+string(rune(cp))+c[1])
+	}
+	for _, cp := range []int{0x10000, 0x10001, 0x1ffff, 0x20000, 0x2fffe, 0x2ffff, 0xe0000, 0xfffff, 0x100000, 0x10fffe, 0x10ffff} {
+		add("string-beyond-bmp", string(rune(cp)))
+	}
+	for i := 0; i < nBeyond; i++ {
+		c := string(rune(0x10000 + r.Intn(0x100000)))
+		if r.Chance(0.3) {
+			c = "a" + c + " "
+		}
+		add("string-beyond-bmp", c)
+	}
+	for i := 0; i < nRand; i++ {
+		var b strings.Builder
+		for j, n := 0, 1+r.Intn(10); j < n; j++ {
+			if r.Chance(0.1) {
+				b.WriteRune(rune(r.Intn(0xd800)))
+			} else {
+				b.WriteString(hx.Pick(r, strAlpha09))
+			}
+		}
+		add("string-random", b.String())
+	}
+	// a long string (the reader refills its buffers several times) and the document-indicator check at a line start
+	add("string-long", strings.Repeat("abc \u00e9\\\"<\n", 700))
+	add("string-long", strings.Repeat("\U0001F600", 2000)+" "+strings.Repeat(" ", 1500)+"x")
+	for _, str := range []string{"a\u0085--- b", "a\u0085---", "a\u0085...\tb", "a\u0085 --- b", "\u0085---\u0085", "--- a", "a\u0085\u0085b", "a \u0085 b", "\u0085", "a\u0085\u2028b"} {
+		add("string-random", str)
+	}
+	// not valid UTF-8
+	bad := []string{"\xff", "\xc0\x80", "\xc2", "a\xc2", "\xe0\x80\x80", "\xe0\xa0", "\xed\xa0\x80", "\xed\xbf\xbf", "\xf0\x80\x80\x80", "\xf4\x90\x80\x80", "\xf5\x80\x80\x80",
+		"\xf8\x88\x80\x80\x80", "\x80", "\xbf", "a\x80b", "\xc2\x41", "\xe2\x80", "\xe2\x80\x41", "\xf0\x9f\x98", "\xf0\x9f\x98\x41", "\xc1\xbf", "\xef\xbf", "\xc2\xc2\x85", "\xe1\xc2\x80", "\xfe\xff"}
+	nBad := 200
+	if tier == "thorough" {
+		nBad = 3000
+	}
+	for i := 0; i < nBad; i++ {
+		n := 1 + r.Intn(6)
+		bs := make([]byte, n)
+		for j := range bs {
+			switch r.Intn(4) {
+			case 0:
+				bs[j] = byte(0x80 + r.Intn(0x40))
+			case 1:
+				bs[j] = byte(0xc0 + r.Intn(0x40))
+			case 2:
+				bs[j] = byte(r.Intn(256))
+			default:
+				bs[j] = byte(0x20 + r.Intn(0x5f))
+			}
+		}
+		bad = append(bad, string(bs))
+	}
+	for _, str := range bad {
+		add("string-bytes", str)
+	}
 }
